@@ -133,18 +133,22 @@ pub fn sites(thorough: bool) -> Vec<Site> {
             }),
         );
     }
-    add(
-        "Method argument count (3-bit ArgCount)",
-        7,
-        &[8, 9, 15, 255],
-        false,
-        Box::new(|n| ser(&Method::new("MTH0".into(), n as u8, false, vec![]))),
-        Box::new(|b, n| match parse_one(b)? {
-            N::Method(_, flags, _) if (flags & 7) as u64 == n && flags & 0xf0 == 0 => Ok(()),
-            N::Method(_, flags, _) => Err(format!("MethodFlags {:#04x}: ArgCount {} for {} arguments given", flags, flags & 7, n)),
-            o => Err(format!("not a method: {:?}", o)),
-        }),
-    );
+    // every argument count 0..=255 with both values of the co-argument that shares the MethodFlags byte
+    for serialized in [false, true] {
+        let reject: Vec<u64> = (8..=255).collect();
+        add(
+            if serialized { "Method argument count (3-bit ArgCount), serialized" } else { "Method argument count (3-bit ArgCount)" },
+            7,
+            &reject,
+            false,
+            Box::new(move |n| ser(&Method::new("MTH0".into(), n as u8, serialized, vec![]))),
+            Box::new(move |b, n| match parse_one(b)? {
+                N::Method(_, flags, _) if (flags & 7) as u64 == n && flags & 0xf0 == 0 && (flags & 8 != 0) == serialized => Ok(()),
+                N::Method(_, flags, _) => Err(format!("MethodFlags {:#04x}: ArgCount {} for {} arguments given (serialized {})", flags, flags & 7, n, serialized)),
+                o => Err(format!("not a method: {:?}", o)),
+            }),
+        );
+    }
     add(
         "Field unit width (PkgLength, 28 bits)",
         (1 << 28) - 1,
